@@ -9,6 +9,13 @@ body menus, turned into a component by ooaofooa.mk_component (and, for the
 row-order part, serialised to text, permuted, and loaded through
 ModelLoader.input + build_component), and every entry call -- from python and
 from an OAL caller -- is compared with the reference evaluator.
+
+History family: for every body of the derived attribute (total ones and
+partial ones that are erroneous on some populations) every executable sequence
+of HIST_LEN steps over {python read, read by an OAL function, create, write N,
+delete} runs on one component; every read the reference accepts must deliver
+the value computed from the data at that moment, also after reads that were
+rejected because the body was erroneous on the data of that moment.
 '''
 import itertools
 
@@ -21,6 +28,10 @@ ASSUMPTIONS = [
     'derived attribute bodies use the dialect of the repository tests ("self.<attr> = <expr>;")',
     'constants are read by their bare name (the form mk_component registers); enumerators as <Enum>::<name>',
     'programs the reference rejects (diverging recursion within depth/fuel, ill-typed) are skipped and counted',
+    'histories: a read of a derived attribute whose body is erroneous on the current data (attribute access through an empty '
+    'selection, division by zero in a nested call) has no defined outcome -- it is performed and whatever it delivers or raises is '
+    'ignored; every read the reference accepts, before or after such a rejected read, must deliver the value computed from the '
+    'data at the time of that read',
 ]
 
 V = lambda n: ('var', n)
@@ -60,6 +71,7 @@ BODIES = {
         ('G2', [RET(B('+', F_('f', n=P('m')), P('n')))]),
         ('G3', [IF(B('<=', P('n'), I(0)), [RET(I(0))]), RET(B('+', I(1), F_('f', n=B('-', P('n'), I(1)))))]),
         ('G4', [RET(B('-', P('m'), P('n')))]),
+        ('G5', [RET(B('/', P('m'), P('n')))]),          # partial: only in the history family (see N_PRODUCT)
     ],
     'h': [   # h(b: boolean, n: integer)
         ('H1', [IF(P('b'), [RET(P('n'))], [], [RET(B('-', I(0), P('n')))])]),
@@ -94,6 +106,9 @@ BODIES = {
         ('D2', F_('f', n=SF('N'))),
         ('D3', 'count-all'),
         ('D4', 'chain-depth'),    # depth along instances ordered by N: reads the same-named attribute of another instance      # select many as_ from instances of A; self.D = cardinality as_ + self.N;
+        # partial bodies (erroneous on some populations); only in the history family (see N_PRODUCT)
+        ('D5', 'needs-successor'),   # select any o from instances of A where (selected.N == self.N + 1); self.D = o.N * 10 + self.N;
+        ('D6', F_('g', n=SF('N'), m=I(12))),     # with g = G5: 12 / self.N computed in a nested function call
     ],
     'b': [   # EE::b(p: integer)
         ('B1', [RET(B('+', P('p'), I(1)))]),
@@ -107,12 +122,19 @@ PARAMS = {'f': [('n', 'integer')], 'g': [('n', 'integer'), ('m', 'integer')], 'h
           'op': [('k', 'integer')], 'cop': [('k', 'integer')], 'b': [('p', 'integer')]}
 ENUM = ['Red', 'Green', 'Blue']
 SLOTS = ['f', 'g', 'h', 'op', 'cop', 'D', 'b']
+# number of leading bodies of a slot that take part in the call systems of systems(); the bodies behind them are partial
+# (erroneous for some data) and are explored by the history family only
+N_PRODUCT = {'g': 4, 'D': 4}
 
 
 def derived_statements(name, derived, as_return=False):
     if derived == 'count-all':
         e = B('+', ('un', 'cardinality', V('as_')), SF('N'))
         return [('selfrom', 'many', 'as_', 'A', None, True), RET(e) if as_return else ASG(SF(name), e)]
+    if derived == 'needs-successor':
+        sel = ('selfrom', 'any', 'o', 'A', B('==', ('field', ('selected',), 'N'), B('+', SF('N'), I(1))), True)
+        e = B('+', B('*', ('field', V('o'), 'N'), I(10)), SF('N'))
+        return [sel, RET(e) if as_return else ASG(SF(name), e)]
     if derived == 'chain-depth':
         other = ('field', V('o'), name)
         sel = ('selfrom', 'any', 'o', 'A', B('==', ('field', ('selected',), 'N'), B('-', SF('N'), I(1))), True)
@@ -129,7 +151,7 @@ def body_text(stmts):
 def systems(tier):
     '''Assignments slot -> body index.  quick: all single deviations from the default assignment plus the product of a sub-menu;
     thorough: the full product.'''
-    sizes = [len(BODIES[s]) for s in SLOTS]
+    sizes = [N_PRODUCT.get(s, len(BODIES[s])) for s in SLOTS]
     if tier == 'thorough':
         return [dict(zip(SLOTS, combo)) for combo in itertools.product(*[range(n) for n in sizes])]
     out = []
@@ -525,6 +547,158 @@ def system_task(ctx, task):
                 ctx.distinct('nontrivial', (repr(sorted(system.items())), e[0]))
 
 
+# ---- histories: reads of the derived attribute interleaved with edits through the python API ------------------
+
+HIST_LEN = {'quick': 5, 'thorough': 6}
+HIST_MAIN = [('selfrom', 'any', 'a', 'A', B('==', ('field', ('selected',), 'Name'), ('str', 'i0')), True), RET(('field', V('a'), 'D'))]
+HIST_ALPHABET = [['rp', 0], ['ro'], ['new', 1], ['set', 0, 0], ['set', 0, 2], ['set', 1, 3], ['del', 1]]
+
+
+def history_systems():
+    """Every body of the derived attribute (total and partial ones) with the default callees; D6 with the dividing g."""
+    base = dict((s, 0) for s in SLOTS)
+    out = []
+    for i, (label, _) in enumerate(BODIES['D']):
+        out.append(dict(base, D=i, g=4) if label == 'D6' else dict(base, D=i))
+    return out
+
+
+def histories(length):
+    """
+    All step sequences of exactly *length* over HIST_ALPHABET that are executable (the population starts as one instance
+    "i0" with N = 0; at most two instances; instance 1 is addressed only while it exists) and end with a read.
+    rp i = python read of instance i's D; ro = read of i0.D by an OAL function; new k / set i k / del i = population edits
+    through the python API.
+    """
+    out = []
+
+    def rec(prefix, n_inst):
+        if len(prefix) == length:
+            if prefix[-1][0] in ('rp', 'ro'):
+                out.append(list(prefix))
+            return
+        for st in HIST_ALPHABET:
+            k = st[0]
+            n2 = n_inst
+            if k == 'new':
+                if n_inst >= 2:
+                    continue
+                n2 = n_inst + 1
+            elif k in ('set', 'rp') and st[1] >= n_inst:
+                continue
+            elif k == 'del':
+                if n_inst < 2:
+                    continue
+                n2 = n_inst - 1
+            prefix.append(st)
+            rec(prefix, n2)
+            prefix.pop()
+    rec([], 1)
+    return out
+
+
+def history_reference(system, history):
+    """[(outcome per step)] with outcome = value for accepted reads, 'rejected' for reads whose body is erroneous, None for edits."""
+    ref = relmodel.Ref(SCHEMA)
+    live = [ref.new('A', dict(N=0, Name='i0'))]
+    outs = []
+    for st in history:
+        k = st[0]
+        if k in ('rp', 'ro'):
+            ev = E.Evaluator(ref, fuel=500, max_depth=14, **reference_callables(system))
+            try:
+                if k == 'rp':
+                    outs.append(['value', ev.read_attr(E.Handle('A', live[st[1]]), 'D')])
+                else:
+                    outs.append(['value', ev.run(HIST_MAIN)])
+            except E.OutOfDomain:
+                outs.append(['rejected'])
+            continue
+        if k == 'new':
+            live.append(ref.new('A', dict(N=st[1], Name='i%d' % len(ref.insts))))
+        elif k == 'set':
+            ref.insts[live[st[1]]].values['N'] = st[2]
+        elif k == 'del':
+            ref.delete(live.pop(st[1]))
+        outs.append(None)
+    pop_after = [[ref.insts[i].values['N'], ref.insts[i].values['Name']] for i in ref.order['A']]
+    return outs, pop_after
+
+
+def compare_history(ctx, system, history, bp_model):
+    import xtuml
+    from bridgepoint import ooaofooa
+    case = dict(system=system, family='history', history=history)
+    label = ','.join('%s=%s' % (s, BODIES[s][system[s]][0]) for s in SLOTS)
+    exp, exp_pop = history_reference(system, history)
+    main = bp_model.select_any('S_SYNC', xtuml.where_eq(Name='main'))
+    main.Action_Semantics_internal = body_text(HIST_MAIN)
+    dom = ooaofooa.mk_component(bp_model)
+    live = [dom.new('A', N=0, Name='i0')]
+    created = 1
+    rejected_before = set()      # instances (position) whose D had a rejected read earlier in this history
+    ctx.count('histories')
+    for pos, (st, e) in enumerate(zip(history, exp)):
+        k = st[0]
+        if k in ('rp', 'ro'):
+            target = st[1] if k == 'rp' else 0
+            ctx.count('calls')
+            ctx.count('history_reads')
+            try:
+                with core.time_limit(10.0):
+                    got = live[st[1]].D if k == 'rp' else dom.find_symbol('main')()
+                err = None
+            except core.Timeout:
+                ctx.violation('c15:history:hang', case, 'step %d (%s) of history %s with %s does not return within 10 s' % (pos, st, history, label),
+                              None, 'timeout')
+                return 'bad'
+            except RecursionError as x:
+                got, err = None, x
+            except Exception as x:
+                got, err = None, x
+            if e[0] == 'rejected':
+                ctx.count('history_rejected_reads')
+                rejected_before.add(target)
+                continue
+            after = ':after-rejected-read' if target in rejected_before else ''
+            if err is not None:
+                ctx.violation('c15:history:%s%s:crash:%s' % (k, after, type(err).__name__), case,
+                              'step %d (%s) of history %s with %s raised %s: %s; expected %r' % (pos, st, history, label, type(err).__name__, err, e[1]),
+                              norm(e[1]), type(err).__name__)
+                return 'bad'
+            if norm(got) != norm(e[1]):
+                ctx.violation('c15:history:%s%s:value' % (k, after), case,
+                              'step %d (%s) of history %s with %s read %r, expected %r (derived attributes are recomputed on every read)'
+                              % (pos, st, history, label, got, e[1]), norm(e[1]), norm(got))
+                return 'bad'
+            if after:
+                ctx.count('history_recovered_reads')
+            ctx.distinct('outcomes', ('history', repr(norm(e[1]))))
+            continue
+        if k == 'new':
+            created += 1
+            live.append(dom.new('A', N=st[1], Name='i%d' % (created - 1)))
+        elif k == 'set':
+            live[st[1]].N = st[2]
+        elif k == 'del':
+            xtuml.delete(live.pop(st[1]))
+    got_pop = [[i.N, i.Name] for i in dom.select_many('A')]
+    if [[norm(a), norm(b)] for a, b in got_pop] != [[norm(a), norm(b)] for a, b in exp_pop]:
+        ctx.violation('c15:history:population', case, 'history %s with %s leaves A = %r, expected %r' % (history, label, got_pop, exp_pop),
+                      exp_pop, got_pop)
+        return 'bad'
+    ctx.count('traces')
+    return 'ok'
+
+
+def history_task(ctx, task):
+    tier, system, hs = task
+    bp = build_bp_model(system)
+    for h in hs:
+        if compare_history(ctx, system, h, bp) == 'ok':
+            ctx.distinct('nontrivial', ('history', system['D'], repr(h)))
+
+
 # ---- row order ----------------------------------------------------------------------
 
 PERM_TABLES = ['S_ENUM', 'S_SPARM', 'O_TPARM', 'CNST_SYC', 'CNST_LSC', 'S_SYNC', 'O_TFR', 'O_ATTR']
@@ -580,6 +754,10 @@ def run(ctx):
     base = dict((s, 0) for s in SLOTS)
     ro_systems = [base, dict(base, f=2, op=2, D=1)] if ctx.quick else [base, dict(base, f=2, op=2, D=1), dict(base, f=7, h=1, cop=1, b=2)]
     ctx.pmap(roworder_task, [(ctx.tier, s, t) for s in ro_systems for t in PERM_TABLES])
+    hl = histories(HIST_LEN[ctx.tier])
+    hl = hl[k:] + hl[:k]
+    hchunk = 60 if ctx.quick else 400
+    ctx.pmap(history_task, [(ctx.tier, s, hl[i:i + hchunk]) for s in history_systems() for i in range(0, len(hl), hchunk)])
     ctx.sample(dict(system=dict((s, BODIES[s][sysl[0][s]][0]) for s in SLOTS), f_body=body_text(BODIES['f'][sysl[0]['f']][1]),
                     entries=[e[0] for e in entries()][:6]))
     ctx.sample(dict(body_F4=body_text(BODIES['f'][3][1]), body_C2=body_text(BODIES['cop'][1][1])))
@@ -587,10 +765,17 @@ def run(ctx):
     ctx.require(ctx.n('calls') >= 1000, 'too few entry calls (%d)' % ctx.n('calls'))
     ctx.require(ctx.n('row_orders') >= 50, 'too few row orders (%d)' % ctx.n('row_orders'))
     ctx.require(ctx.nd('outcomes') >= 25, 'too few distinct outcomes (%d)' % ctx.nd('outcomes'))
+    ctx.require(ctx.n('histories') >= 1000, 'too few histories (%d)' % ctx.n('histories'))
+    ctx.require(ctx.n('history_rejected_reads') >= 200, 'too few rejected reads in histories (%d)' % ctx.n('history_rejected_reads'))
+    ctx.require(ctx.n('history_recovered_reads') >= 50, 'too few accepted reads after a rejected read of the same attribute of the '
+                'same instance (%d)' % ctx.n('history_recovered_reads'))
 
 
 def replay(ctx, case):
     system = case['system']
+    if case.get('family') == 'history':
+        compare_history(ctx, system, case['history'], build_bp_model(system))
+        return
     entry = [e for e in entries() if e[0] == case['entry']][0]
     if case.get('family', 'api') == 'api':
         compare_entry(ctx, system, entry, build_bp_model(system), 'api')
@@ -619,12 +804,18 @@ def coverage(ctx):
         traces_validated_against_impl=ctx.n('traces'),
         evaluations=ctx.n('calls'), out_of_domain=ctx.n('out_of_domain'),
         call_systems=ctx.n('systems'), row_orders=ctx.n('row_orders'),
+        histories=ctx.n('histories'), history_reads=ctx.n('history_reads'), history_rejected_reads=ctx.n('history_rejected_reads'),
+        history_reads_accepted_after_a_rejected_read=ctx.n('history_recovered_reads'),
         distinct_nontrivial=ctx.nd('nontrivial'), distinct_outcomes=ctx.nd('outcomes'),
         rule='states = call systems (assignments of bodies to f, g, h, A.op, A.cop, A.D, EE::b) plus permuted model texts; every entry '
              'call of the menu (python and OAL callers) is executed on both sides; non-trivial = distinct (system, entry) pairs that '
-             'were compared successfully (all involve at least one call into an OAL body)',
+             'were compared successfully (all involve at least one call into an OAL body); plus, per body of the derived attribute, '
+             'every executable step sequence of the stated length over the history alphabet that ends with a read',
         bounds=dict(bodies=dict((s, [b[0] for b in BODIES[s]]) for s in SLOTS), entries=len(entries()),
                     systems='full product' if ctx.thorough else 'default + every single deviation + product of a sub-menu',
-                    permuted_tables=PERM_TABLES),
+                    permuted_tables=PERM_TABLES,
+                    bodies_outside_the_call_system_product=dict((s, [b[0] for b in BODIES[s][n:]]) for s, n in N_PRODUCT.items()),
+                    history=dict(length=HIST_LEN[ctx.tier], alphabet=HIST_ALPHABET, initial_population='one instance i0 with N = 0',
+                                 max_instances=2, systems=[BODIES['D'][s['D']][0] for s in history_systems()])),
         exhaustive=not ctx.caps_hit,
     )
